@@ -8,6 +8,7 @@ import (
 	"net"
 	"os"
 	"regexp"
+	"strconv"
 	"strings"
 	"sync"
 	"time"
@@ -144,8 +145,9 @@ func (sr *scenRun) setConn(name string, c net.Conn) {
 	if c == nil {
 		return
 	}
-	// bound every blocking operation on the stream (safety net, not part of the scenario)
-	_ = c.SetDeadline(time.Now().Add(1500 * time.Millisecond))
+	// far beyond the (retried) watchdog, so that it never hides a wedge: it only frees the
+	// goroutines of a scenario that did stall
+	_ = c.SetDeadline(time.Now().Add(200 * baseWatchdog))
 	sr.mu.Lock()
 	sr.conns[name] = c
 	sr.mu.Unlock()
@@ -245,6 +247,14 @@ var localCalls = map[string]func(ctx context.Context, sr *scenRun, arg string){
 			}
 		}
 	},
+	// Write without Flush: arg = <conn>-<n bytes>; the data stays in the stream's buffers
+	"ibbwriteraw": func(ctx context.Context, sr *scenRun, arg string) {
+		name, ns, _ := strings.Cut(arg, "-")
+		n, _ := strconv.Atoi(ns)
+		if c := sr.conn(name); c != nil && n > 0 {
+			_, _ = c.Write([]byte(strings.Repeat("x", n)))
+		}
+	},
 	"ibbclose": func(ctx context.Context, sr *scenRun, arg string) {
 		if c := sr.conn(arg); c != nil {
 			_ = c.Close()
@@ -301,7 +311,7 @@ var localCalls = map[string]func(ctx context.Context, sr *scenRun, arg string){
 var iqElemRe = regexp.MustCompile(`(?s)<iq[^>]*\sid="([^"]*)"[^>]*?(/>|>.*?</iq>)`)
 
 func (sr *scenRun) awaitOut(pred func(out string) bool) bool {
-	return sr.awaitOutFor(watchdog, pred)
+	return sr.awaitOutFor(wd(), pred)
 }
 
 func (sr *scenRun) awaitOutFor(d time.Duration, pred func(out string) bool) bool {
@@ -341,7 +351,7 @@ func (sr *scenRun) feed(b []byte) bool {
 		sr.fx.done <- o
 		_ = sr.fx.rs.In.Close()
 		return false
-	case <-time.After(watchdog):
+	case <-time.After(wd()):
 		return false
 	}
 }
@@ -400,12 +410,19 @@ func runScenario(steps []string) outcome {
 		}
 		sr.mu.Unlock()
 		for name, c := range sr.calls {
+			// ibb's Close / Write wait for the peer's reply under the stream's own deadline (they
+			// take no context): once the session has ended an unanswered one returns only at that
+			// deadline, which these scenarios set far away so that it cannot hide a wedge of Serve
+			deadlineBound := strings.HasPrefix(name, "ibbclose") || strings.HasPrefix(name, "ibbwrite")
 			select {
 			case o := <-c.done:
 				if o.panicMsg != "" {
 					return o
 				}
-			case <-time.After(watchdog):
+			case <-time.After(wd()):
+				if deadlineBound {
+					continue
+				}
 				return outcome{stalled: true, where: "local call " + name + " did not return after its context was cancelled, its streams closed and the input ended"}
 			}
 		}
@@ -454,7 +471,7 @@ func runScenario(steps []string) outcome {
 					if o.panicMsg != "" {
 						return abort(o)
 					}
-				case <-time.After(watchdog):
+				case <-time.After(wd()):
 					return abort(outcome{stalled: true, where: "local call " + f[1] + " did not return"})
 				}
 			}
@@ -492,10 +509,10 @@ func runScenario(steps []string) outcome {
 				if checkServe() {
 					continue
 				}
-				if os.Getenv("C09_DEBUG") != "" {
-					fmt.Fprintf(os.Stderr, "  feed not consumed: %.80s\n", b)
-				}
-				// not consumed: either Serve is about to end or it is wedged; decided at probe / end
+				// Serve is running but has not taken the peer's bytes for a whole watchdog: with
+				// every incoming stream accepted in the background nothing legitimate keeps a
+				// handler busy that long
+				return abort(outcome{stalled: true, where: fmt.Sprintf("Serve is running but did not consume the peer's input (%.60s…)", b)})
 			}
 		case "replyto":
 			if len(f) != 4 {
@@ -562,7 +579,9 @@ func runScenario(steps []string) outcome {
 			}
 			sr.probes++
 			id := fmt.Sprintf("probe%d", sr.probes)
-			sr.feed([]byte(`<iq xmlns="jabber:client" type="get" id="` + id + `" from="example.net"><ping xmlns="urn:xmpp:ping"/></iq>`))
+			if !sr.feed([]byte(`<iq xmlns="jabber:client" type="get" id="`+id+`" from="example.net"><ping xmlns="urn:xmpp:ping"/></iq>`)) && !checkServe() {
+				return abort(outcome{stalled: true, where: "Serve is running but did not even read the liveness probe"})
+			}
 			if !sr.awaitOut(func(out string) bool { return strings.Contains(out, `id="`+id+`"`) }) {
 				if checkServe() {
 					if serveOut.panicMsg != "" {
@@ -578,7 +597,7 @@ func runScenario(steps []string) outcome {
 				select {
 				case serveOut = <-fx.done:
 					serveEnded = true
-				case <-time.After(watchdog):
+				case <-time.After(wd()):
 					for _, c := range sr.calls {
 						c.cancel()
 					}
@@ -760,6 +779,20 @@ func scenarioList() []scenario {
 		scNoProbe("write-failure-during-ibb", "call:ibbaccept", feed(ibbOpen("i1", "s1")), "wait:ibbaccept", "failwrites", feed(ibbData("i2", "s1", 0)), feed(ibbClose("i3", "s1"))),
 		scNoProbe("local-close-twice", "call:sessclose", "wait:sessclose", "call:sessclose.2", "wait:sessclose.2", feed(iq("get", "p1", `<ping xmlns="urn:xmpp:ping"/>`))),
 	)
+	// --- unflushed data in an acked stream when the peer closes it (1..5 bytes: partial base64
+	// groups) -----------------------------------------------------------------------------------
+	for n := 1; n <= 5; n++ {
+		w := fmt.Sprintf("ibbwriteraw.in-%d", n)
+		l = append(l,
+			sc(fmt.Sprintf("ibb-in-unflushed-%d-then-peer-close", n), "call:ibbaccept", feed(ibbOpen("i1", "s1")), "wait:ibbaccept", "call:"+w, "wait:"+w, auto("<data", "result", ""), feed(ibbClose("i2", "s1")), "probe", feed(ibbData("i3", "s1", 0))),
+		)
+	}
+	l = append(l,
+		sc("ibb-out-unflushed-then-peer-close", "call:ibbopen", await(`id="o1"`), feed(iq("result", "o1", "")), "wait:ibbopen", "call:ibbwriteraw.out-1", "wait:ibbwriteraw.out-1", auto("<data", "result", ""), feed(ibbClose("i1", "s1")), "probe"),
+		sc("ibb-in-unflushed-then-local-close", "call:ibbaccept", feed(ibbOpen("i1", "s1")), "wait:ibbaccept", "call:ibbwriteraw.in-2", "wait:ibbwriteraw.in-2", auto("<data", "result", ""), "call:ibbclose.in", replyto("<close", "result", ""), "wait:ibbclose.in"),
+		sc("history-closed-then-fin", "call:hist.1", await("hq1"), feed(mamResult("hq1")), "wait:hist.1", replyto("hq1", "result", finPayload), "probe", feed(mamResult("hq1"))),
+		sc("history-closed-then-fin-error", "call:hist.1", await("hq1"), feed(mamResult("hq1")), "wait:hist.1", replyto("hq1", "error", errPayload), "probe"),
+	)
 	// --- muc ---------------------------------------------------------------------------------
 	l = append(l,
 		sc("muc-unmanaged-presences", feed(mucPresence("other@conf.example/x", "", true)), feed(mucPresence("other@conf.example/x", "unavailable", true)), feed(mucPresence("room@conf.example/nick", "", true))),
@@ -784,11 +817,11 @@ func scenarioList() []scenario {
 
 func (c *ctx) scen(s scenario, class string) {
 	line := "scen " + s.name + " " + strings.Join(s.steps, ",")
-	if c.stalls["scen"] >= 3*maxStalls || !c.begin(line) {
+	if c.stalls["scen"] >= 6 || !c.begin(line) {
 		return
 	}
 	t0 := time.Now()
-	o := runScenario(s.steps)
+	o := retryStalled(func() outcome { return runScenario(s.steps) })
 	if d := time.Since(t0); os.Getenv("C09_DEBUG") != "" && (d > 300*time.Millisecond || o.obs() != "ok") {
 		fmt.Fprintf(os.Stderr, "scen %s %v %s %s\n", s.name, d, o.obs(), o.where)
 		if d > 10*time.Second {
